@@ -222,3 +222,61 @@ def identifier_enum(world, crate, ty):
             catch = val
     req = [n(t.get("callee")).split("::")[-1] for _, t in BV.of(dz[0]).calls() if n(t.get("callee")).startswith("serde::Deserializer::")]
     return {"table": table, "catch_all": catch, "requests": req}
+
+
+# ---------------------------------------------------------------------- json! literal shapes (C17-R3)
+def json_shape(bv, world, t, depth=0):
+    """Shape tree of a serde_json::Value built with json!: objects with constant keys, arrays,
+    interpolated expressions (with their Rust type), literals."""
+    if depth > 30:
+        return {"value": "?"}
+    while t[0] in ("ref", "deref"):
+        t = t[1]
+    if t[0] == "phi":
+        alts = [json_shape(bv, world, a, depth + 1) for a in t[1]]
+        return alts[0] if len(alts) == 1 else {"oneof": alts}
+    if t[0] == "agg" and t[2] and t[2].startswith("serde_json::Value::"):
+        kind = t[2].split("::")[-1]
+        if kind == "Object":
+            m = t[3][0]
+            while m[0] in ("ref", "deref"):
+                m = m[1]
+            if not (m[0] == "call" and lib.norm(m[1]).endswith("::new") and "serde_json::Map" in m[1]):
+                return {"object": None}
+            site = m[3]
+            obj = {}
+            for bi, tt in sorted(bv.calls(), key=lambda x: x[0]):
+                if not (lib.norm(tt.get("callee") or "").endswith("::insert") and "serde_json::Map" in (tt.get("callee") or "")):
+                    continue
+                recv = bv.trace_op(tt["args"][0])
+                while recv[0] in ("ref", "deref"):
+                    recv = recv[1]
+                if recv[0] == "call" and recv[3] == site and lib.norm(recv[1]) == lib.norm(m[1]):
+                    k = bv.trace_op(tt["args"][1])
+                    kk = None
+                    for x in walk(k):
+                        if x[0] == "const":
+                            kk = lib.term_const(bv.crate, x)
+                            if kk is not None:
+                                break
+                    obj[kk] = json_shape(bv, world, bv.trace_op(tt["args"][2]), depth + 1)
+            return {"object": obj}
+        if kind == "Array":
+            elems = []
+            for x in walk(t[3][0]):
+                if x[0] == "agg" and x[1] == "array":
+                    elems = [json_shape(bv, world, e, depth + 1) for e in x[3]]
+                    break
+            return {"array": elems, "dynamic": not elems, "term": terms.render(bv, t[3][0], world, {})[:200] if not elems else None}
+        return {"value": kind.lower()}
+    if t[0] == "call" and lib.norm(t[1]).split("::")[-1] in ("unwrap", "expect") and t[2]:
+        inner = t[2][0]
+        while inner[0] in ("ref", "deref"):
+            inner = inner[1]
+        if inner[0] == "call" and lib.norm(inner[1]) == "serde_json::to_value":
+            tt = bv.blocks[inner[3]]["t"]
+            tys = [lib.norm(bv.crate.types[s]["s"]) for s in tt.get("substs", []) if isinstance(s, int)]
+            return {"value": "expr", "type": tys[0] if tys else None, "term": terms.render(bv, inner[2][0], world, {})[:200]}
+    if t[0] == "call" and lib.norm(t[1]) == "serde_json::to_value":
+        return {"value": "expr", "type": None}
+    return {"value": "other", "term": terms.render(bv, t, world, {})[:200]}
